@@ -15,7 +15,7 @@ CHECK = dict(
                  "REP-prefixed self-looping instructions are not generated"],
     overlay={"quick": "plain", "thorough": "asan"},
     crash_is_violation=True,
-    timeout={"quick": 900, "thorough": 6000},
+    timeout={"quick": 1500, "thorough": 6000},
     technique="runtime monitoring: callback log vs trace specification replayed over a single-step reference trace",
 )
 
